@@ -3,12 +3,12 @@ import itertools, json
 from .. import common, gen, pool, pipefam, readerfam
 
 RULE = ("histories of loads of the same result files through DensityData(...), verify_h5_cache and the two directory-level constructors: "
-        "exhaustive sequences up to length 3 (quick: 2) over the four constructors x strand mixtures, plus histories whose first load is "
+        "exhaustive sequences up to length 3 (quick: 2) over the four constructors x strand mixtures, two-load histories in which the first or the second load is given a GeneData in another row order than the result file, plus histories whose first load is "
         "killed (forked child, os._exit) before the copy / mid-copy / after the copy / after j exchanged genes / before publishing, with "
         "and without an HDF5 flush, or interrupted by an exception (Ctrl-C) at the j-th gene of the swap loop, or hit by ONE transient I/O error at the k-th dataset write of the exchange, followed by 1-2 loads (the exception-interrupted and the two-load histories also by a caller that hands the SAME GeneData object to every load); plus two loads of two different files of one directory interleaved (5 orders of their start / copy / publish steps) followed by loads of both; every completed load is compared column by column with the raw file and with "
         "the model; non-trivial = history with >= 2 loads or a crash, and a minus-strand gene; distinct = (case, history)")
 HOWS = ["ctor", "verify", "dir", "regex"]
-COQ_HOW = {"ctor": "ByCtor", "verify": "ByVerify", "dir": "ByVerify", "regex": "ByCtor"}
+COQ_HOW = {"ctor": "ByCtor", "verify": "ByVerify", "dir": "ByVerify", "regex": "ByCtor", "ctor_shuffled": "ByCtor"}
 
 
 def histories(tier, nminus):
@@ -17,6 +17,11 @@ def histories(tier, nminus):
     for n in range(1, L + 1):
         for seq in itertools.product(HOWS, repeat=n):
             hs.append([{"how": h} for h in seq])
+    # the FIRST load (the one that makes the copy every later load trusts) by a caller whose GeneData lists the same genes in another
+    # row order than the result file, then any constructor; and the other way round
+    for h in HOWS:
+        hs.append([{"how": "ctor_shuffled"}, {"how": h}])
+        hs.append([{"how": h}, {"how": "ctor_shuffled"}])
     for j in range(1, nminus + 1):        # interrupted by an exception (Ctrl-C) at the j-th gene of the swap loop
         for first in ["ctor", "verify"]:
             for after in [["ctor"], ["verify", "dir"]]:
